@@ -223,7 +223,11 @@ def _classify_key(fl, k, graph):
     if k[0] == "sub":
         base = strip_wrappers(k[1]) if k[1][0] == "call" else k[1]
         c = is_call(k[1], "list", "tuple")
-        if c and c[0] and strip_wrappers(c[0][0]) in (("attr", graph, "nodes"), graph):
+        position_list = bool(c and c[0] and strip_wrappers(c[0][0]) in (("attr", graph, "nodes"), graph))
+        if k[1][0] == "comp" and k[1][1] == "list" and len(k[1][4]) == 1 and not k[1][4][0][2] and k[1][3] == k[1][4][0][1]:
+            e3 = elem_of(k[1][3])
+            position_list = bool(e3 and e3[0] == "elem" and strip_wrappers(e3[1]) in (("attr", graph, "nodes"), graph))
+        if position_list:
             inner = _classify_key(fl, k[2], graph)
             if inner == "rdkit":
                 return "node-by-position"
